@@ -5,7 +5,7 @@ use crate::probe;
 use serde_json::{Value, json};
 use std::io::{BufRead, Write};
 use yvcommon::sched::Outcome;
-use yvcommon::shell::{FileSpec, ShellCfg, ShellResult, run_shell};
+use yvcommon::shell::{FileSpec, ShellResult};
 use yvcommon::util;
 
 pub const NO_LIMIT: i64 = 9999;
@@ -106,6 +106,10 @@ pub fn script_of(sc: &Value) -> String {
         s.push_str(&format!("ulimit -n {lim}\n"));
     }
     s.push_str("obs b\n");
+    // fault injection: the n-th system call of a kind fails while this command is applied
+    if let Some(call) = sc["fault"]["call"].as_str().filter(|c| *c != "none") {
+        s.push_str(&format!("arm {call} {} {}\n", sc["fault"]["n"], sc["fault"]["errno"].as_str().unwrap_or("EIO")));
+    }
     s.push_str(&command_text(kind, bst, &sc["list"], "c", MARK_FDS, "f"));
     s.push_str("obs a\n");
     s
@@ -135,31 +139,22 @@ pub fn run_script_with(
     tracked: &'static [&'static str],
     extra: &[(String, String)],
 ) -> ShellResult {
-    let mut cfg = if as_file {
-        ShellCfg::with_argv(vec!["yash".into(), "/tmp/s".into()])
-    } else {
-        ShellCfg::command(script)
-    };
-    cfg.files = base_files();
+    let mut files = base_files();
     // /tmp/s always exists so that the tracked file set does not depend on the mode
-    cfg.files.push(FileSpec::Regular {
+    files.push(FileSpec::Regular {
         path: "/tmp/s".into(),
         content: if as_file { script.as_bytes().to_vec() } else { vec![] },
         mode: 0o644,
     });
     for (path, content) in extra {
-        cfg.files.push(FileSpec::Regular { path: path.clone(), content: content.as_bytes().to_vec(), mode: 0o644 });
+        files.push(FileSpec::Regular { path: path.clone(), content: content.as_bytes().to_vec(), mode: 0o644 });
     }
-    cfg.cwd = Some("/tmp".into());
-    cfg.step_limit = 200_000;
-    cfg.setup = Some(Box::new(move |env, state| {
-        probe::make_terminal(state);
-        probe::begin_run(state, tracked);
-        probe::register(env);
-    }));
-    let r = run_shell(cfg);
-    probe::end_run();
-    r
+    let argv: Vec<String> = if as_file {
+        vec!["yash".into(), "/tmp/s".into()]
+    } else {
+        vec!["yash".into(), "-c".into(), script.into()]
+    };
+    crate::runner::run(crate::runner::RunCfg { argv, files, cwd: "/tmp".into(), step_limit: 200_000, tracked })
 }
 
 pub fn outcome_str(o: &Outcome) -> String {
@@ -197,6 +192,8 @@ pub fn record(
         }
     };
     let st = if exited { r.status as i64 } else { after["st"].as_i64().unwrap() };
+    // did an injected fault hit a system call made for this command?
+    let fired = c.is_some_and(|c| c["fired"] == true) || after["fired"] == true;
     Some((
         json!({
             "before": b["tab"], "files0": b["files"],
@@ -204,7 +201,7 @@ pub fn record(
             "in": c.map(|c| c["tab"].clone()).unwrap_or(json!([])),
             "wr": c.map(|c| c["wr"].clone()).unwrap_or(json!([])),
             "after": after["tab"], "files1": after["files"],
-            "st": st, "exited": exited,
+            "st": st, "exited": exited, "fired": fired,
         }),
         exited,
     ))
@@ -301,7 +298,7 @@ pub fn run_scenario(id: i64, line: &Value) -> Value {
         // not even the `before` observation: report an empty record
         (
             json!({"before": [], "files0": [], "ran": false, "in": [], "wr": [], "after": [], "files1": [],
-                   "st": r.status, "exited": true}),
+                   "st": r.status, "exited": true, "fired": false}),
             true,
         )
     });
@@ -311,6 +308,7 @@ pub fn run_scenario(id: i64, line: &Value) -> Value {
     for k in ["kind", "nc", "lim", "bst", "list"] {
         m.insert(k.into(), sc[k].clone());
     }
+    m.insert("flt".into(), json!(sc["fault"]["call"].as_str().is_some_and(|c| c != "none")));
     m.insert("stchk".into(), json!(true));
     m.insert("fchk".into(), json!(true));
     m.insert("oc".into(), json!(outcome_str(&r.outcome)));
